@@ -88,7 +88,7 @@ def run_harnesses(prop, harnesses, tier, failing=()):
             wanted = any(f == h["when_fails"] for f in failing)
         if not wanted:
             continue
-        cmd, out, wall = _cargo_kani([h["harness"]], timeout=h.get("timeout", 600))
+        cmd, out, wall = _cargo_kani([h["harness"]], extra=h.get("flags", ()), timeout=h.get("timeout", 600))
         b = _split(out).get(h["harness"])
         r = {"harness": h["harness"], "obligation": h["obligation"], "fn": h.get("fn"), "role": role,
              "cmd": " ".join(cmd).replace(VERIF + "/", ""), "wall_s": round(wall, 1), "backend": "Kani 0.68 / CBMC 6.11"}
@@ -98,7 +98,7 @@ def run_harnesses(prop, harnesses, tier, failing=()):
             r.update(status="undecided", summary="harness not found in Kani output (build error?)", output=out[-2000:])
         elif "VERIFICATION:- SUCCESSFUL" in b:
             m = re.search(r"\*\* (\d+) of (\d+) failed", b)
-            r.update(status="proved", summary=f"{m.group(2) if m else '?'} checks, 0 failed (loop-free harness over the full input domain: complete)", output="")
+            r.update(status="proved", summary=f"{m.group(2) if m else '?'} checks, 0 failed (" + h.get("scope", "loop-free harness over the full input domain: complete") + ")", output="")
             r["checks"] = int(m.group(2)) if m else 0
         elif "VERIFICATION:- FAILED" in b:
             failed = re.findall(r"Failed Checks: (.*)", b)
